@@ -34,6 +34,8 @@ HANDLES_TIMEOUT = True
 SOURCES = ['extensions/common.py', 'core/containers.py', 'core/interfaces.py', 'tools.py']
 
 VARS = ['X', 'Y', 'Z', 'W']
+INTERNAL = '_V'                 # a variable whose name starts with '_': left out of to_dataframe() unless include_internal=True
+ATTR_NAMES = ('lags', 'check')  # attributes every model has: an alias named like one is the kept finding alias-named-like-attribute
 ALIAS_NAMES = ['A', 'B', 'C', 'D', 'y', 'Ax']
 SPANS = [[10, 11, 12], [0, 1, 2, 3], [5], [2000, 2001, 2002, 2003, 2004], [3, 1, 2]]
 S = c09.S
@@ -201,7 +203,11 @@ def rand_case(rng, max_ops):
     span = list(rng.choice(SPANS))
     n = len(span)
     names = rng.sample(VARS, rng.randint(1, 4))
+    if rng.random() < 0.15:
+        names.insert(rng.randint(0, len(names)), INTERNAL)
     aliases = rand_aliases(rng, names)
+    if aliases and not cyclic(aliases) and rng.random() < 0.04:
+        aliases.append([rng.choice(ATTR_NAMES), rng.choice(names)])
     case = {'kind': kind, 'span': span, 'strict': kind == 'model' and rng.random() < 0.2, 'names': names,
             'dreq': rng.choice(['f', 'f', 'f', 'f', 'i', 's', 'b']), 'default': S(rng.choice([['f', 0], ['i', 1], ['f', 3]])),
             'aliases': aliases, 'preferred': rand_preferred(rng, aliases, names), 'extra': 0, 'ops': [], 'ivs': []}
@@ -227,7 +233,7 @@ def rand_case(rng, max_ops):
     pool = list(names) + (['Q'] if rng.random() < 0.3 else []) + ([rng.choice(ALIAS_NAMES)] if rng.random() < 0.15 else [])
     rows = len(names)
     for _ in range(rng.randint(1, max_ops)):
-        op = c09.rand_op(rng, span, kind, rows, pool=pool)
+        op = c09.rand_op(rng, span, kind, rows, pool=pool, book=False)
         if op[0] == 'addvar':
             rows += 1
         case['ops'].append(through_aliases(rng, aliases, op))
@@ -249,6 +255,7 @@ def rand_case(rng, max_ops):
         case['rx'] = rng.choice([span[1:] + [top + 1], [top + 2] + span, list(reversed(span)), span[:1], span + [top + 1, top + 2]])
     # class hierarchy: the class under test is a subclass extending its parent's ALIASES, or the parent of such a subclass; the
     # other class is instantiated before or after it
+    case['fkw'] = {'status': rng.random() < 0.7, 'iterations': rng.random() < 0.7, 'include_internal': rng.random() < 0.3}
     case['family'] = None
     if aliases and not cyclic(aliases) and rng.random() < 0.3:
         case['family'] = {'role': rng.choice(['sub', 'parent']), 'split': rng.randint(0, len(aliases)), 'other_first': rng.random() < 0.5}
@@ -263,7 +270,8 @@ def rand_case(rng, max_ops):
 def fixed_cases():
     li = lambda *xs: ['L', [S(['i', x]) for x in xs]]      # noqa: E731
     base = {'kind': 'model', 'span': [10, 11, 12], 'strict': False, 'names': ['X', 'Y', 'Z'], 'dreq': 'f', 'default': S(['f', 0]),
-            'extra': 0, 'ivs': [], 'preferred': [], 'reads': [], 'solve': None, 'family': None, 'ops': []}
+            'extra': 0, 'ivs': [], 'preferred': [], 'reads': [], 'solve': None, 'family': None, 'ops': [],
+            'fkw': {'status': True, 'iterations': True, 'include_internal': False}}
     out = []
 
     def mk(**kw):
@@ -278,6 +286,12 @@ def fixed_cases():
     mk(aliases=chain3, preferred=['A', 'y'], ops=ops, ivs=[['B', li(1, 2, 3)], ['Z', S(['i', 7])], ['X', li(4, 5, 6)]],
        reads=[['g', ['n', 'A']], ['g', ['l', 'B', 11]], ['g', ['sl', 'C', 10, 11, None]], ['a', 'D'], ['a', 'y']], solve=['A', 'y'])
     mk(aliases=chain3, preferred=[], ops=ops, reads=[['g', ['n', 'B']]])
+    for st in (True, False):
+        for it in (True, False):
+            for incl in (True, False):
+                mk(names=['X', '_V', 'Y'], aliases=[['A', 'X'], ['v', '_V'], ['y', 'Y']], preferred=['v'] if incl else ['A'],
+                   ops=[['setattr', 'v', li(1, 2, 3)]], fkw={'status': st, 'iterations': it, 'include_internal': incl})
+    mk(aliases=[['lags', 'X']], ops=[['setattr', 'lags', S(['i', 5])], ['getattr', 'lags']], reads=[['a', 'lags'], ['g', ['n', 'lags']]])   # kept finding
     # class hierarchies (the parent / the subclass is instantiated first), an alias read by attribute before copy()/reindex()
     cross = [['getattr', 'A'], ['getattr', 'y'], ['become', 'copy'], ['setattr', 'A', li(5, 6, 7)], ['getattr', 'B'], ['setitem', ['l', 'D', 11], S(['i', 1])],
              ['getattr', 'D'], ['become', 'reindex'], ['setitem', ['sl', 'C', 10, 11, None], li(8, 9)], ['getattr', 'A'], ['sib', ['setattr', 'B', li(0, 0, 0)]],
@@ -516,9 +530,10 @@ def impl(case):
         tr = ['a', chain_end(al, r[1])] if r[0] == 'a' else ['g', canon_key(al, r[1])]
         res['reads'].append([_read(a_obj, r), _read(t_obj, tr)])
     # export
-    res['frame_alias'] = _frame(a_obj, use_aliases=True)
-    res['frame_noalias'] = _frame(a_obj)
-    res['frame_twin'] = _frame(t_obj)
+    fkw = case.get('fkw') or {}
+    res['frame_alias'] = _frame(a_obj, use_aliases=True, **fkw)
+    res['frame_noalias'] = _frame(a_obj, **fkw)
+    res['frame_twin'] = _frame(t_obj, **fkw)
     res['final_names'] = list(a_obj.__dict__.get('names', []))
     if case.get('rx') is not None:
         res['reindex'] = cc.reindex_observation(a_obj, case['rx'], declared)
@@ -665,17 +680,28 @@ def explain(case, obs):
     return {'first_difference': _k_compare(case, res[0], obs), 'model': res[0]}
 
 
-def shadowed(case):
-    """Alias names that are (or become) variable / column names: the class of the kept finding."""
-    vs = set(case['names']) | {'status', 'iterations'} | {op[1] for op in case['ops'] if op[0] == 'addvar'}
+def shadowed(case, obs=None):
+    """Alias names that are (or become) variable / column names: the class of the kept finding alias-named-like-variable.
+    With the observation: only add_variable calls that were ACCEPTED count."""
+    added = set()
+    steps = (obs or {}).get('steps')
+    for i, op in enumerate(case['ops']):
+        if op[0] == 'addvar' and (steps is None or (i < len(steps) and steps[i]['out'] == 'ok')):
+            added.add(op[1])
+    vs = set(case['names']) | {'status', 'iterations'} | added
     return sorted(k for k, v in case['aliases'] if k != v and k in vs)
+
+
+def attr_shadowed(case):
+    """Alias names that are also attributes of every model: the class of the kept finding alias-named-like-attribute."""
+    return sorted(k for k, v in case['aliases'] if k != v and k in ATTR_NAMES)
 
 
 def guard(case, obs):
     """Inside the class of the kept finding (an alias named like a variable) the values setter re-enters the alias-resolving
     __setattr__ with the shadowed VARIABLE name; the model mirrors the shadowing for item / attribute access and for the export,
     not for that re-entry: K is silent for such histories, the oracle speaks. Elsewhere K is compared (C09's own guard apart)."""
-    if shadowed(case) and (case.get('rx') is not None
+    if shadowed(case, obs) and (case.get('rx') is not None
                            or any((op[0] in ('setattr', 'addattr') and op[1] == 'values') or op[0] in cc.CROSS_OPS for op in case['ops'])):
         return True          # (reindex() too walks `index` through the alias-resolving __getitem__)
     return c09.guard(case, obs)
@@ -693,20 +719,48 @@ def _shadowing(case, cols):
 
 
 def oracle(case, obs):
-    fails = _oracle(case, obs)
-    sh = shadowed(case)
-    if fails and sh and not any(f['sig'].startswith('C18|__init__|does-not') for f in fails):
-        # an alias named like a variable hides that variable from every access by name: one finding, whatever it breaks
-        return [{'sig': 'C18|alias-named-like-variable', 'what': 'alias(es) %s are also variable / column names: %s' % (
-            sh, '; '.join(f['what'] for f in fails)[:400])}]
-    return fails
+    """The failures of _oracle, with exactly the classes of the two kept findings folded into their signatures: a failure is
+    attributed to `alias-named-like-variable` only if the failing step goes through a shadowed name (or its variable) or is an
+    operation that walks ALL variables through self[...] (values, nbytes, dir, copies, reindex, export, solve); to
+    `alias-named-like-attribute` only if it is an attribute READ of such an alias. Everything else stays what it is."""
+    al = case['aliases']
+    sh = set(shadowed(case, obs))
+    related = sh | {chain_end(al, k) for k in sh}
+    ash = set(attr_shadowed(case))
+    keep, folded, afolded = [], [], []
+    for f in _oracle(case, obs):
+        touch = f.pop('touch', None)
+        if f['sig'].startswith('C18|__init__|does-not'):
+            keep.append(f)
+        elif ash and f.get('attr_read') and touch and set(touch) & ash:
+            afolded.append(f)
+        elif sh and (touch == 'walk' or (touch and set(touch) & related)):
+            folded.append(f)
+        else:
+            keep.append(f)
+        f.pop('attr_read', None)
+    if folded:
+        keep.append({'sig': 'C18|alias-named-like-variable', 'what': 'alias(es) %s are also variable / column names: %s' % (
+            sorted(sh), '; '.join(f['what'] for f in folded)[:400])})
+    if afolded:
+        keep.append({'sig': 'C18|alias-named-like-attribute', 'what': 'alias(es) %s are also attributes of the object: %s' % (
+            sorted(ash), '; '.join(f['what'] for f in afolded)[:400])})
+    return keep
 
 
 def _oracle(case, obs):
     fails = []
 
-    def bad(sig, what):
-        fails.append({'sig': 'C18|' + sig, 'what': what})
+    def bad(sig, what, touch=None, attr_read=False):
+        fails.append({'sig': 'C18|' + sig, 'what': what, 'touch': touch, 'attr_read': attr_read})
+
+    def names_of_op(op):
+        ns = set(c09._target_names(op))
+        if op[0] in ('fork', 'sib'):
+            ns |= set(c09._target_names(op[-1]))
+        if op[0] == 'getattr':
+            ns.add(op[1])
+        return ns | {chain_end(al, n) for n in ns}
     al = case['aliases']
     if obs.get('timeout') or obs.get('init') == 'hang':
         bad('__init__|does-not-return', 'AliasMixin.__init__ does not return for ALIASES=%s' % dict(al))
@@ -725,93 +779,97 @@ def _oracle(case, obs):
     if len(set(ends)) != len(ends):
         # two keywords for one variable: no call on the twin is "the same operation"; only the storage claim is judged
         if obs['init'] == 'ok' and obs.get('twin_init') == 'ok' and (obs.get('dict_extra_arrays') or obs.get('dict_missing')):
-            bad('storage|extra-entries', 'the aliased object holds %s more / %s fewer entries than its twin' % (obs.get('dict_extra'), obs.get('dict_missing')))
+            bad('storage|extra-entries', 'the aliased object holds %s more / %s fewer entries than its twin' % (obs.get('dict_extra'), obs.get('dict_missing')), touch='walk')
         return fails
     # ---- constructor keywords through aliases = the same keywords through the variables
     if obs['init'] != obs.get('twin_init'):
         bad('__init__|differs-from-twin', 'constructor with keywords %s gave %s, the twin with the underlying names gave %s' % (
-            [k for k, _ in case['ivs']], obs['init'], obs.get('twin_init')))
+            [k for k, _ in case['ivs']], obs['init'], obs.get('twin_init')), touch=set(k for k, _ in case['ivs']) | {chain_end(al, k) for k, _ in case['ivs']})
         return fails
     if obs['init'] != 'ok':
         return fails
     if obs.get('twin_diff0'):
-        bad('__init__|differs-from-twin', 'after construction: ' + obs['twin_diff0'])
+        bad('__init__|differs-from-twin', 'after construction: ' + obs['twin_diff0'], touch=set(k for k, _ in case['ivs']) | {chain_end(al, k) for k, _ in case['ivs']})
     # ---- every write through an alias = the same write on the underlying variable
     for i, (op, stp) in enumerate(zip(case['ops'], obs['steps'])):
         if stp['out'] != stp['twin_out']:
-            bad('%s|differs-from-twin' % op[0], 'op %d %s through %s gave %s, on the twin %s' % (i, op[0], c09._target_names(op), stp['out'], stp['twin_out']))
+            bad('%s|differs-from-twin' % op[0], 'op %d %s through %s gave %s, on the twin %s' % (i, op[0], c09._target_names(op), stp['out'], stp['twin_out']), touch=('walk' if ((op[0] in ('setattr', 'addattr') and op[1] == 'values') or op[0] in ('fork', 'sib', 'become')) else names_of_op(op)))
             break
         if stp['twin_diff']:
-            bad('%s|differs-from-twin' % op[0], 'op %d %s through %s: state differs from the twin: %s' % (i, op[0], c09._target_names(op), stp['twin_diff'][:200]))
+            bad('%s|differs-from-twin' % op[0], 'op %d %s through %s: state differs from the twin: %s' % (i, op[0], c09._target_names(op), stp['twin_diff'][:200]), touch=('walk' if ((op[0] in ('setattr', 'addattr') and op[1] == 'values') or op[0] in ('fork', 'sib', 'become')) else names_of_op(op)))
             break
         if op[0] in cc.CROSS_OPS:
             ia, it = stp.get('aux', {}), stp.get('twin_aux', {})
-            if op[0] == 'getattr' and (op[1] in stp['st']['adict'] or chain_end(al, op[1]) in stp['st']['adict']):
-                ia = it = {}                # a plain attribute of that name exists as well: not a read of a variable
+            if op[0] == 'getattr' and (op[1] in stp['st']['adict'] or chain_end(al, op[1]) in stp['st']['adict']) \
+                    and op[1] not in attr_shadowed(case):
+                ia = it = {}                # a plain attribute of that name was made by the history itself: not a read of a variable
             if ia != it:
-                bad('cross-instance|differs-from-twin', 'op %d %s: %s, on the twin %s' % (i, json.dumps(op)[:100], str(ia)[:100], str(it)[:100]))
+                bad('cross-instance|differs-from-twin', 'op %d %s: %s, on the twin %s' % (i, json.dumps(op)[:100], str(ia)[:100], str(it)[:100]), touch=(names_of_op(op) if op[0] == 'getattr' else 'walk'), attr_read=(op[0] == 'getattr'))
             elif stp.get('sib_diff'):
-                bad('cross-instance|differs-from-twin', 'op %d %s: the other instance differs from the twin\'s: %s' % (i, json.dumps(op)[:100], stp['sib_diff'][:160]))
+                bad('cross-instance|differs-from-twin', 'op %d %s: the other instance differs from the twin\'s: %s' % (i, json.dumps(op)[:100], stp['sib_diff'][:160]), touch='walk')
             elif not stp.get('aliases_kept', True):
-                bad('cross-instance|aliases-lost', 'op %d %s: the object no longer carries its aliases' % (i, json.dumps(op)[:100]))
+                bad('cross-instance|aliases-lost', 'op %d %s: the object no longer carries its aliases' % (i, json.dumps(op)[:100]), touch='walk')
         if op[0] == 'query':
             # read-only hooks: the state was compared with the twin above (the twin's hook certainly changes nothing of ITS aliases);
             # what they return: the twin's answer, plus the alias names where names are listed
             a, t = stp.get('ret'), stp.get('twin_ret')
             alias_names = [k for k, v in al if k != v]
             if op[1] == 'completions' and not (isinstance(a, dict) and isinstance(t, dict) and sorted(a['names']) == sorted(t['names'] + alias_names)):
-                bad('hook|completions', 'op %d: _ipython_key_completions_() gave %s; variables %s + aliases %s expected' % (i, a, t, alias_names))
+                bad('hook|completions', 'op %d: _ipython_key_completions_() gave %s; variables %s + aliases %s expected' % (i, a, t, alias_names), touch='walk')
             elif op[1] == 'dir' and not (isinstance(a, dict) and isinstance(t, dict)
                                          and a['names'] == sorted(t['names'] + [x for x in alias_names if x not in a.get('masked', [])])):
-                bad('hook|dir', 'op %d: dir(obj) gave %s; the twin lists %s, aliases %s' % (i, a, t, alias_names))
+                bad('hook|dir', 'op %d: dir(obj) gave %s; the twin lists %s, aliases %s' % (i, a, t, alias_names), touch='walk')
             elif op[1] == 'nbytes' and a != t:
-                bad('hook|nbytes', 'op %d: nbytes gave %s, the twin %s' % (i, a, t))
+                bad('hook|nbytes', 'op %d: nbytes gave %s, the twin %s' % (i, a, t), touch='walk')
             elif isinstance(op[1], list) and a != t:
                 bad('contains|alias-differs-from-variable', 'op %d: %r in obj gave %s, but %r in obj gives %s and item access through both names is the same' % (
-                    i, op[1][1], a, chain_end(al, op[1][1]), t))
+                    i, op[1][1], a, chain_end(al, op[1][1]), t), touch=names_of_op(op))
     # ---- no additional storage
     if obs.get('dict_extra_arrays') or obs.get('dict_missing') or len(obs.get('dict_extra', [])) > 4:
         # the mixin's own bookkeeping (the alias map, the preferred names) is no series; anything array-like is storage
         bad('storage|extra-entries', 'the aliased object holds %s more (arrays: %s) / %s fewer entries than its twin' % (
-            obs.get('dict_extra'), obs.get('dict_extra_arrays'), obs.get('dict_missing')))
+            obs.get('dict_extra'), obs.get('dict_extra_arrays'), obs.get('dict_missing')), touch='walk')
     elif obs.get('nbytes') and obs['nbytes'][0] != obs['nbytes'][1]:
-        bad('storage|extra-bytes', 'series storage %s bytes vs %s in the twin' % tuple(obs['nbytes']))
+        bad('storage|extra-bytes', 'series storage %s bytes vs %s in the twin' % tuple(obs['nbytes']), touch='walk')
     # ---- reads
     final = obs['steps'][-1]['st'] if obs['steps'] else obs['st0']
     for r, (a, t) in zip(case.get('reads', []), obs.get('reads', [])):
-        if r[0] == 'a' and (chain_end(al, r[1]) in final['adict'] or r[1] in final['adict']):
-            continue            # a plain attribute of that name exists as well: not a read of a variable
+        if r[0] == 'a' and (chain_end(al, r[1]) in final['adict'] or r[1] in final['adict']) and r[1] not in attr_shadowed(case):
+            continue            # a plain attribute of that name was made by the history itself: not a read of a variable
         if a != t:
-            bad('read|differs-from-twin', 'read %s gave %s, the twin %s' % (r, str(a)[:80], str(t)[:80]))
+            bad('read|differs-from-twin', 'read %s gave %s, the twin %s' % (r, str(a)[:80], str(t)[:80]), touch={r[1] if r[0] == 'a' else (r[1][1] if len(r[1]) > 1 else '')} | {chain_end(al, r[1] if r[0] == 'a' else (r[1][1] if len(r[1]) > 1 else ''))}, attr_read=(r[0] == 'a'))
             break
     if 'reindex' in obs and 'copy' not in final['adict']:
         a, t = obs['reindex'], obs.get('twin_reindex')
         if isinstance(a, dict) and isinstance(t, dict):
             d = cc.diff_state(a, t)
             if d:
-                bad('reindex|differs-from-twin', 'reindex(%s): %s' % (case['rx'], d[:200]))
+                bad('reindex|differs-from-twin', 'reindex(%s): %s' % (case['rx'], d[:200]), touch='walk')
         elif a != t:
-            bad('reindex|differs-from-twin', 'reindex(%s) gave %s, on the twin %s' % (case['rx'], str(a)[:60], str(t)[:60]))
+            bad('reindex|differs-from-twin', 'reindex(%s) gave %s, on the twin %s' % (case['rx'], str(a)[:60], str(t)[:60]), touch='walk')
     # ---- copy() / reindex(): still an aliased object, equal to the twin's copy, nothing stored under alias names
     for label, c in sorted((obs.get('copies') or {}).items()):
         if c['outs'][0] != c['outs'][1]:
-            bad('%s|differs-from-twin' % label, '%s() gave %s, on the twin %s' % (label, c['outs'][0], c['outs'][1]))
+            bad('%s|differs-from-twin' % label, '%s() gave %s, on the twin %s' % (label, c['outs'][0], c['outs'][1]), touch='walk')
         elif c['outs'][0] == 'ok':
             if c.get('diff'):
-                bad('%s|differs-from-twin' % label, '%s(): %s' % (label, c['diff'][:200]))
+                bad('%s|differs-from-twin' % label, '%s(): %s' % (label, c['diff'][:200]), touch='walk')
             if not c.get('aliases_kept') or not c.get('same_class'):
-                bad('%s|aliases-lost' % label, '%s() does not return an object of the same class with the same aliases' % label)
+                bad('%s|aliases-lost' % label, '%s() does not return an object of the same class with the same aliases' % label, touch='walk')
             if c.get('extra_arrays'):
-                bad('%s|storage-under-alias-names' % label, '%s() holds arrays %s that the twin does not' % (label, c['extra_arrays']))
+                bad('%s|storage-under-alias-names' % label, '%s() holds arrays %s that the twin does not' % (label, c['extra_arrays']), touch='walk')
     # ---- generated solution code
     sv = obs.get('solve')
     if sv and (sv['outs'][0] != sv['outs'][1] or sv['diff']):
-        bad('solve|differs-from-twin', 'solve() of %s[t] = 2 * %s[t] + 1: %s, state difference %s' % (case['solve'][0], case['solve'][1], sv['outs'], sv['diff']))
+        bad('solve|differs-from-twin', 'solve() of %s[t] = 2 * %s[t] + 1: %s, state difference %s' % (case['solve'][0], case['solve'][1], sv['outs'], sv['diff']),
+            touch=(set(case['solve']) if set(case['solve']) & set(attr_shadowed(case)) else 'walk'),
+            attr_read=bool(set(case['solve']) & set(attr_shadowed(case))))
     # ---- export
     fa, fn, ft = obs.get('frame_alias'), obs.get('frame_noalias'), obs.get('frame_twin')
     if isinstance(ft, str):
         return fails
-    exbad = bad
+    def exbad(sig, what):
+        bad(sig, what, touch='walk')
     if isinstance(fn, str) or fn != ft:
         exbad('to_dataframe|plain-export-differs', 'to_dataframe() differs from the twin: %s' % (fn if isinstance(fn, str) else fn['cols']))
     if isinstance(fa, str):
